@@ -743,6 +743,11 @@ class VF:
                 return None
         elif k == "std::option::Option::<T>::unwrap_or" and len(args) == 2:
             none = args[1]
+        elif k.endswith("bool>::then_some") and len(args) == 2:
+            # `c.then_some(v)` is `if c { Some(v) } else { None }`
+            some = ("A", "std::option::Option", "Some", (("0", args[1]),))
+            nonev = ("A", "std::option::Option", "None", ())
+            return ("GATE", args[0], ((0, nonev), ("otherwise", some)))
         else:
             return None
         opt = args[0]
@@ -778,8 +783,19 @@ class VF:
         out = []
         for (u, lab) in sorted(self.body.edge_guards(bb), key=lambda x: (x[0], str(x[1]))):
             t = self.body.term(u)
-            out.append((self.operand(t[1], u, len(self.body.stmts(u))), lab, u))
+            c = self.operand(t[1], u, len(self.body.stmts(u)))
+            if t[4] == "bool":
+                c, lab = canon_guard(c, lab)
+            out.append((c, lab, u))
         return out
+
+    def switch_cond(self, u, lab):
+        """(canonical condition, label) of edge `lab` of switch block u."""
+        t = self.body.term(u)
+        c = self.operand(t[1], u, len(self.body.stmts(u)))
+        if t[4] == "bool":
+            return canon_guard(c, lab)
+        return c, lab
 
     def guard_set(self, p, bb=None):
         """Dominating switch edges of block p, plus the direct edge p->bb when p is a switch."""
@@ -793,6 +809,8 @@ class VF:
     def guard_text(self, u, lab, roots=None, short=True, vfx=None, body=None, depth=0):
         t = self.body.term(u)
         c = self.operand(t[1], u, len(self.body.stmts(u)))
+        if t[4] == "bool":
+            c, lab = canon_guard(c, lab)
         return guard_str(render(c, body or self.render_body or self.body, roots, depth + 8, short, vfx), lab, t[4], [a[0] for a in t[2]])
 
     def feasible(self, bb):
@@ -995,6 +1013,104 @@ NOUPD = [False]
 NOCAST = [False]
 
 
+CMP_SWAP = {"Gt": "Lt", "Ge": "Le"}
+CMP_NEG = {"Lt": ("Le", True), "Le": ("Lt", True), "Gt": ("Le", False), "Ge": ("Lt", False), "Eq": ("Ne", False), "Ne": ("Eq", False)}
+
+
+def canon_cmp(e):
+    """a > b  ->  b < a ;  a >= b  ->  b <= a  (one orientation for every ordering test)."""
+    if e[0] == "B" and e[1] in CMP_SWAP:
+        return ("B", CMP_SWAP[e[1]], e[3], e[2])
+    return e
+
+
+def canon_guard(c, lab):
+    """Normal form of a boolean branch fact (condition, edge label): negations are pushed into the condition, so that
+    `if a < b {X} else {Y}` and `if a >= b {Y} else {X}` give the same facts. Orderings and (in)equalities are always stated
+    positively (label 'otherwise'); flag tests are stated as has(x, F) with the label carrying the truth value."""
+    truth = lab != 0
+    while c[0] == "U" and c[1] == "Not":
+        c = c[2]
+        truth = not truth
+    h = as_has(c)
+    if h is not None:
+        neg, x, f = h
+        if neg:
+            truth = not truth
+        return ("B", "Ne", ("B", "BitAnd", x, f), ("K", 0, f[2] if len(f) > 2 else "u32", None)), ("otherwise" if truth else 0)
+    if c[0] == "B" and c[1] in CMP_NEG:
+        if not truth:
+            op, swap = CMP_NEG[c[1]]
+            c = ("B", op, c[3], c[2]) if swap else ("B", op, c[2], c[3])
+            truth = True
+        c = canon_cmp(c)
+    return c, ("otherwise" if truth else 0)
+
+
+def split_call(text):
+    """'Name(a, b)' -> ('Name', ['a', 'b']) with balanced brackets/quotes; None if text is not of that form."""
+    i = text.find("(")
+    if i <= 0 or not text.endswith(")"):
+        return None
+    name, inner = text[:i], text[i + 1:-1]
+    args, depth, cur, q = [], 0, "", None
+    j = 0
+    while j < len(inner):
+        ch = inner[j]
+        if q:
+            cur += ch
+            if ch == "\\" and j + 1 < len(inner):
+                cur += inner[j + 1]
+                j += 1
+            elif ch == q:
+                q = None
+        elif ch in "\"":
+            q = ch
+            cur += ch
+        elif ch in "([{":
+            depth += 1
+            cur += ch
+        elif ch in ")]}":
+            depth -= 1
+            cur += ch
+            if depth < 0:
+                return None
+        elif ch == "," and depth == 0:
+            args.append(cur.strip())
+            cur = ""
+        else:
+            cur += ch
+        j += 1
+    if depth != 0:
+        return None
+    if cur.strip():
+        args.append(cur.strip())
+    return name, args
+
+
+def fact(text):
+    """Canonical text of a comparison written in any orientation: fact('Gt(a, b)') == 'Lt(b, a)'."""
+    sc = split_call(text)
+    if sc and sc[0] in CMP_SWAP and len(sc[1]) == 2:
+        return "%s(%s, %s)" % (CMP_SWAP[sc[0]], sc[1][1], sc[1][0])
+    if sc and sc[0] in ("Eq", "Ne") and len(sc[1]) == 2:
+        a, b = sorted(sc[1])
+        return "%s(%s, %s)" % (sc[0], a, b)
+    return text
+
+
+def neg_fact(text):
+    """Canonical text of the negation of a comparison: neg_fact('Lt(a, b)') == 'Le(b, a)'."""
+    sc = split_call(text)
+    if sc and sc[0] in CMP_NEG and len(sc[1]) == 2:
+        op, swap = CMP_NEG[sc[0]]
+        a, b = (sc[1][1], sc[1][0]) if swap else (sc[1][0], sc[1][1])
+        return fact("%s(%s, %s)" % (op, a, b))
+    if text.startswith("!"):
+        return text[1:]
+    return "!" + text
+
+
 def guard_str(c, lab, ty, values):
     if ty == "bool":
         return ("!" + c) if lab == 0 else c
@@ -1022,6 +1138,9 @@ def as_has(e):
         if h is not None:
             return (not h[0], h[1], h[2])
         return None
+    if e[0] == "B" and e[1] == "Lt" and e[2][0] == "K" and e[2][1] == 0 and _andparts(e[3]) is not None:
+        x, f = _andparts(e[3])
+        return (False, x, f)
     if e[0] != "B" or e[1] not in ("Ne", "Gt", "Eq"):
         return None
     a, b = e[2], e[3]
@@ -1193,12 +1312,16 @@ def render(e, body=None, roots=None, depth=0, short=False, vfx=None):
     if t == "B" and e[1] == "AndNot":
         return "%s - %s" % (R(e[2]), R(e[3]))
     if t == "B":
+        e = canon_cmp(e)
         a, b = R(e[2]), R(e[3])
         if e[1] in ("BitOr", "BitAnd", "BitXor", "Add", "Mul", "Eq", "Ne") and b < a:
             a, b = b, a
         return "%s(%s, %s)" % (e[1], a, b)
     if t == "OVF":
         return "ovf_%s(%s, %s)" % (e[1], R(e[2]), R(e[3]))
+    if t == "U" and e[1] == "Not" and e[2][0] == "B" and e[2][1] in CMP_NEG:
+        op, swap = CMP_NEG[e[2][1]]
+        return R(("B", op, e[2][3], e[2][2]) if swap else ("B", op, e[2][2], e[2][3]))
     if t == "U":
         return "%s(%s)" % (e[1], R(e[2]))
     if t == "LEN":
@@ -1225,6 +1348,12 @@ def render(e, body=None, roots=None, depth=0, short=False, vfx=None):
     if t == "AW":
         return "await(%s)" % R(e[1])
     if t == "GATE":
+        if set(l for (l, _) in e[2]) == {0, "otherwise"}:
+            arms = []
+            for (l, v) in e[2]:
+                c2, l2 = canon_guard(e[1], l)
+                arms.append("%s => %s" % (guard_str(R(c2), l2, "bool", []), R(v)))
+            return "phi{%s}" % " | ".join(sorted(set(arms)))
         c = R(e[1])
         arms = ["%s => %s" % (guard_str(c, l, "isize", [x[0] for x in e[2]]), R(v)) for (l, v) in e[2]]
         return "phi{%s}" % " | ".join(sorted(set(arms)))
